@@ -1,12 +1,19 @@
 #!/bin/sh
-# Builds every property's harness test binary against /repo's working tree
-# (offline; only the module cache and /repo are used). Warms the Go build cache.
+# Builds the harness test binary of every claimed property (MANIFEST.json)
+# against /repo's working tree (offline; only the module cache and /repo are
+# used). Warms the Go build cache. A package that is not claimed yet is skipped.
 set -e
 export GOFLAGS=-mod=mod GOPROXY=off GOSUMDB=off GOTOOLCHAIN=local
-cd "$(dirname "$0")/harness"
+cd "$(dirname "$0")"
+ids=$(python3 -c "import json;print(' '.join(c['property_id'].lower() for c in json.load(open('MANIFEST.json'))['checks']))")
+cd harness
 mkdir -p ../.build
-for d in c[0-9][0-9]; do
-  [ -d "$d" ] || continue
-  go test -c -tags verif -o ../.build/$d.test ./$d
+for d in $ids; do
+  [ -d "$d" ] || { echo "missing package $d"; exit 1; }
+  if [ -f "$d/verif.json" ] && grep -q '"race"[ ]*:[ ]*true' "$d/verif.json"; then
+    go test -c -race -tags verif -o ../.build/$d.race.test ./$d
+  else
+    go test -c -tags verif -o ../.build/$d.test ./$d
+  fi
 done
-echo "setup ok"
+echo "setup ok: $ids"
